@@ -23,114 +23,152 @@ func checkC11(c *Check) {
 	// ---- R1 group stack discipline
 	c.Rule("R1", "E2 order", "Group pushes (path, handlers) before calling fn and pops exactly the last entry on every path after it", 3)
 	fGroups := p.Field("flamego", "router", "groups")
-	if g := p.Meth("flamego", "router", "Group"); g != nil && fGroups != nil {
-		key := p.FuncKey(g)
-		isGroups := func(v ssa.Value) bool { return fieldOf(addrOfLoad(strip(v))) == fGroups }
-		var push, pop []ssa.Instruction
-		var fnCall ssa.Instruction
-		allInstrs(g, func(in ssa.Instruction) {
-			switch x := in.(type) {
-			case *ssa.Store:
-				if fieldOf(strip(x.Addr)) != fGroups {
-					return
-				}
-				if a := asCall(x.Val); a != nil && callName(&a.Call) == "builtin.append" && isGroups(a.Call.Args[0]) {
-					// pushed element: group{path: routePath, handlers: handlers}
-					okElem := appendsOnly(a.Call.Args[1], func(v ssa.Value) bool {
-						al := cellOf(v)
-						if al == nil {
-							return false
-						}
-						okP, okH := false, false
-						for _, r := range referrers(al) {
-							if fa, ok := r.(*ssa.FieldAddr); ok {
-								for _, rr := range referrers(fa) {
-									if st, ok := rr.(*ssa.Store); ok && st.Addr == ssa.Value(fa) {
-										if fieldOf(fa).Name() == "path" && vParam(g, 1)(st.Val) {
-											okP = true
-										}
-										if fieldOf(fa).Name() == "handlers" && vParam(g, 3)(st.Val) {
-											okH = true
+	gm := p.Meth("flamego", "router", "Group")
+	// the stack may be kept as two parallel slices (paths, handler lists) instead of a slice of structs
+	var fPaths, fHandlerLists *types.Var
+	if fGroups == nil && gm != nil {
+		allInstrs(gm, func(in ssa.Instruction) {
+			st, ok := in.(*ssa.Store)
+			if !ok {
+				return
+			}
+			f := fieldOf(strip(st.Addr))
+			a := asCall(st.Val)
+			if f == nil || a == nil || callName(&a.Call) != "builtin.append" || fieldOf(addrOfLoad(strip(a.Call.Args[0]))) != f {
+				return
+			}
+			if appendsOnly(a.Call.Args[1], vParam(gm, 1)) {
+				fPaths = f
+			}
+			if appendsOnly(a.Call.Args[1], vParam(gm, 3)) {
+				fHandlerLists = f
+			}
+		})
+		if fPaths != nil && fHandlerLists != nil {
+			c.P.roleNotes = append(c.P.roleNotes, "the group stack is kept as parallel slices "+fPaths.Name()+" / "+fHandlerLists.Name())
+		}
+	}
+	stacks := []*types.Var{fGroups}
+	if fGroups == nil && fPaths != nil && fHandlerLists != nil {
+		stacks = []*types.Var{fPaths, fHandlerLists}
+	}
+	for _, fGroups := range stacks {
+		if g := gm; g != nil && fGroups != nil {
+			key := p.FuncKey(g)
+			if len(stacks) > 1 {
+				key += ":" + fGroups.Name()
+			}
+			parallel := len(stacks) > 1
+			isGroups := func(v ssa.Value) bool { return fieldOf(addrOfLoad(strip(v))) == fGroups }
+			var push, pop []ssa.Instruction
+			var fnCall ssa.Instruction
+			allInstrs(g, func(in ssa.Instruction) {
+				switch x := in.(type) {
+				case *ssa.Store:
+					if fieldOf(strip(x.Addr)) != fGroups {
+						return
+					}
+					if a := asCall(x.Val); a != nil && callName(&a.Call) == "builtin.append" && isGroups(a.Call.Args[0]) {
+						// pushed element: group{path: routePath, handlers: handlers}
+						okElem := appendsOnly(a.Call.Args[1], func(v ssa.Value) bool {
+							if parallel {
+								return (fGroups == fPaths && vParam(g, 1)(v)) || (fGroups == fHandlerLists && vParam(g, 3)(v))
+							}
+							al := cellOf(v)
+							if al == nil {
+								return false
+							}
+							okP, okH := false, false
+							for _, r := range referrers(al) {
+								if fa, ok := r.(*ssa.FieldAddr); ok {
+									for _, rr := range referrers(fa) {
+										if st, ok := rr.(*ssa.Store); ok && st.Addr == ssa.Value(fa) {
+											if fieldOf(fa).Name() == "path" && vParam(g, 1)(st.Val) {
+												okP = true
+											}
+											if fieldOf(fa).Name() == "handlers" && vParam(g, 3)(st.Val) {
+												okH = true
+											}
 										}
 									}
 								}
 							}
-						}
-						return okP && okH
-					})
-					c.Cond(okElem, key+":push-element", p.Pos(x.Pos()), "pushed group = {path: routePath, handlers: handlers}", "the pushed group does not hold the given path and handlers")
-					push = append(push, in)
-					return
-				}
-				if sl, ok := strip(x.Val).(*ssa.Slice); ok && isGroups(sl.X) && sl.Low == nil && sl.High != nil && vBin(token.SUB, vLen(isGroups), vConstInt(1))(sl.High) {
-					pop = append(pop, in)
-					return
-				}
-				c.Bad(key+":groups-store", p.Pos(x.Pos()), "unexpected store to the group stack: "+vstr(x.Val))
-			case ssa.CallInstruction:
-				if callName(x.Common()) == "dynamic" && vParam(g, 2)(x.Common().Value) {
-					fnCall = in
-				}
-			}
-		})
-		// the pop may live in a deferred literal registered before fn() (restores the scope on panic too)
-		deferredPop := false
-		allInstrs(g, func(in ssa.Instruction) {
-			d, ok := in.(*ssa.Defer)
-			if !ok {
-				return
-			}
-			mc, ok := strip(d.Call.Value).(*ssa.MakeClosure)
-			if !ok {
-				return
-			}
-			lit := mc.Fn.(*ssa.Function)
-			allInstrs(lit, func(x ssa.Instruction) {
-				st, ok := x.(*ssa.Store)
-				if !ok || fieldOf(strip(st.Addr)) != fGroups {
-					return
-				}
-				if sl, ok := strip(st.Val).(*ssa.Slice); ok && isGroups(sl.X) && sl.Low == nil && sl.High != nil && vBin(token.SUB, vLen(isGroups), vConstInt(1))(sl.High) {
-					if fnCall != nil {
-						if ok2, _ := mustPrecede(g, isInstr(in), fnCall); ok2 {
-							deferredPop = true
-						}
+							return okP && okH
+						})
+						c.Cond(okElem, key+":push-element", p.Pos(x.Pos()), "pushed group = {path: routePath, handlers: handlers}", "the pushed group does not hold the given path and handlers")
+						push = append(push, in)
+						return
+					}
+					if sl, ok := strip(x.Val).(*ssa.Slice); ok && isGroups(sl.X) && sl.Low == nil && sl.High != nil && vBin(token.SUB, vLen(isGroups), vConstInt(1))(sl.High) {
+						pop = append(pop, in)
+						return
+					}
+					c.Bad(key+":groups-store", p.Pos(x.Pos()), "unexpected store to the group stack: "+vstr(x.Val))
+				case ssa.CallInstruction:
+					if callName(x.Common()) == "dynamic" && vParam(g, 2)(x.Common().Value) {
+						fnCall = in
 					}
 				}
 			})
-		})
-		if fnCall == nil || len(push) == 0 {
-			c.Bad(key+":push-before-fn", p.FuncPos(g), "Group does not push a group and call fn")
-		} else {
-			ok, path := mustPrecede(g, inSet(push), fnCall)
-			if ok {
-				c.OK(key+":push-before-fn", p.Pos(fnCall.Pos()), "push dominates fn()", numInstrs(g))
+			// the pop may live in a deferred literal registered before fn() (restores the scope on panic too)
+			deferredPop := false
+			allInstrs(g, func(in ssa.Instruction) {
+				d, ok := in.(*ssa.Defer)
+				if !ok {
+					return
+				}
+				mc, ok := strip(d.Call.Value).(*ssa.MakeClosure)
+				if !ok {
+					return
+				}
+				lit := mc.Fn.(*ssa.Function)
+				allInstrs(lit, func(x ssa.Instruction) {
+					st, ok := x.(*ssa.Store)
+					if !ok || fieldOf(strip(st.Addr)) != fGroups {
+						return
+					}
+					if sl, ok := strip(st.Val).(*ssa.Slice); ok && isGroups(sl.X) && sl.Low == nil && sl.High != nil && vBin(token.SUB, vLen(isGroups), vConstInt(1))(sl.High) {
+						if fnCall != nil {
+							if ok2, _ := mustPrecede(g, isInstr(in), fnCall); ok2 {
+								deferredPop = true
+							}
+						}
+					}
+				})
+			})
+			if fnCall == nil || len(push) == 0 {
+				c.Bad(key+":push-before-fn", p.FuncPos(g), "Group does not push a group and call fn")
 			} else {
-				c.Bad(key+":push-before-fn", p.Pos(fnCall.Pos()), "fn() can run before the group is pushed: routes inside the group miss its prefix and handlers", path)
-			}
-			ok, path = mustFollow(g, fnCall, inSet(pop))
-			twice := false
-			for _, po := range pop {
-				if in, _ := (Query{Fn: g}).After(po, inSet(pop)); in != nil {
-					twice = true
+				ok, path := mustPrecede(g, inSet(push), fnCall)
+				if ok {
+					c.OK(key+":push-before-fn", p.Pos(fnCall.Pos()), "push dominates fn()", numInstrs(g))
+				} else {
+					c.Bad(key+":push-before-fn", p.Pos(fnCall.Pos()), "fn() can run before the group is pushed: routes inside the group miss its prefix and handlers", path)
+				}
+				ok, path = mustFollow(g, fnCall, inSet(pop))
+				twice := false
+				for _, po := range pop {
+					if in, _ := (Query{Fn: g}).After(po, inSet(pop)); in != nil {
+						twice = true
+					}
+				}
+				if deferredPop && len(pop) == 0 {
+					c.OK(key+":pop-after-fn", p.Pos(fnCall.Pos()), "groups = groups[:len-1] in a literal deferred before fn() (also runs when fn panics)", numInstrs(g))
+				} else if ok && len(pop) > 0 && !twice {
+					c.OK(key+":pop-after-fn", p.Pos(fnCall.Pos()), "groups = groups[:len-1] on every path after fn(), once", numInstrs(g))
+				} else {
+					c.Bad(key+":pop-after-fn", p.Pos(fnCall.Pos()), "leaving a group does not restore the enclosing scope (pop missing, not last-only, or repeated)", path)
 				}
 			}
-			if deferredPop && len(pop) == 0 {
-				c.OK(key+":pop-after-fn", p.Pos(fnCall.Pos()), "groups = groups[:len-1] in a literal deferred before fn() (also runs when fn panics)", numInstrs(g))
-			} else if ok && len(pop) > 0 && !twice {
-				c.OK(key+":pop-after-fn", p.Pos(fnCall.Pos()), "groups = groups[:len-1] on every path after fn(), once", numInstrs(g))
-			} else {
-				c.Bad(key+":pop-after-fn", p.Pos(fnCall.Pos()), "leaving a group does not restore the enclosing scope (pop missing, not last-only, or repeated)", path)
+			// no other writer of the stack
+			for _, u := range p.FieldUses(fGroups) {
+				if u.Kind == "store" && u.Fn != g && u.Fn.Parent() != g && !u.Fresh {
+					c.Bad(p.FuncKey(u.Fn)+":groups-store", p.Pos(u.Instr.Pos()), "the group stack is modified outside Group()")
+				}
 			}
+		} else {
+			c.Anchor("router.Group / router.groups")
 		}
-		// no other writer of the stack
-		for _, u := range p.FieldUses(fGroups) {
-			if u.Kind == "store" && u.Fn != g && u.Fn.Parent() != g && !u.Fresh {
-				c.Bad(p.FuncKey(u.Fn)+":groups-store", p.Pos(u.Instr.Pos()), "the group stack is modified outside Group()")
-			}
-		}
-	} else {
-		c.Anchor("router.Group / router.groups")
 	}
 
 	// ---- R2 concatenation in Route
@@ -151,15 +189,51 @@ func checkC11(c *Check) {
 			}
 		})
 		_ = idx
-		if elemCell == nil {
+		// the element of an ascending walk over the stack: a loop copy, groups[i].f directly, or
+		// paths[i] / handlerLists[i] of the parallel representation
+		stackOf := func(name string) VM {
+			if fGroups == nil && fPaths != nil && fHandlerLists != nil {
+				f := fPaths
+				if name == "handlers" {
+					f = fHandlerLists
+				}
+				return func(v ssa.Value) bool { return fieldOf(addrOfLoad(strip(v))) == f && recv(fieldRoot(v)) }
+			}
+			return nil
+		}
+		gField := func(name string) VM {
+			return func(v ssa.Value) bool {
+				if st := stackOf(name); st != nil {
+					// loop copy of the element (for _, p := range r.groupPaths) or direct index
+					if i, ok := elemIndex(v, st); ok && ascendingIndex(i) {
+						return true
+					}
+					return false
+				}
+				r, ns, ok := fieldPath(v)
+				if !ok || len(ns) != 1 || ns[0] != name {
+					return false
+				}
+				if elemCell != nil && r == ssa.Value(elemCell) {
+					return true
+				}
+				if ia, isIA := r.(*ssa.IndexAddr); isIA && groups(ia.X) && ascendingIndex(ia.Index) {
+					return true
+				}
+				return false
+			}
+		}
+		haveLoop := elemCell != nil
+		if !haveLoop {
+			allInstrs(rt, func(in ssa.Instruction) {
+				if v, ok := in.(ssa.Value); ok && (gField("path")(v) || gField("handlers")(v)) {
+					haveLoop = true
+				}
+			})
+		}
+		if !haveLoop {
 			c.Undecided(key+":group-loop", p.FuncPos(rt), "no ascending loop over the group stack found")
 		} else {
-			gField := func(name string) VM {
-				return func(v ssa.Value) bool {
-					r, ns, ok := fieldPath(v)
-					return ok && len(ns) == 1 && ns[0] == name && r == ssa.Value(elemCell)
-				}
-			}
 			// path: addRoute(method, φ(routePath, acc + routePath), …), acc = φ("", acc + g.path)
 			okPath := false
 			for _, ci := range callsNamed(rt, "(*flamego.router).addRoute") {
@@ -372,7 +446,52 @@ func checkC11(c *Check) {
 
 	// ---- R5 AutoHead
 	c.Rule("R5", "E5 + E1", "autoHead is read only by Get; the extra Head registration is guarded by it and uses the same path and handlers", 2)
-	if fAH := p.Field("flamego", "router", "autoHead"); fAH != nil {
+	fAH := p.Field("flamego", "router", "autoHead")
+	ahm := p.Meth("flamego", "router", "AutoHead")
+	var ahOn *ssa.Const // non-boolean representation: the value AutoHead(true) stores
+	if fAH == nil && ahm != nil {
+		// the switch may be kept in another representation (an enum): the one router field AutoHead() stores
+		var cands []*types.Var
+		allInstrs(ahm, func(in ssa.Instruction) {
+			if st, ok := in.(*ssa.Store); ok {
+				if f := fieldOf(strip(st.Addr)); f != nil {
+					cands = append(cands, f)
+				}
+			}
+		})
+		if len(cands) >= 1 {
+			same := true
+			for _, f := range cands {
+				if f != cands[0] {
+					same = false
+				}
+			}
+			if same {
+				fAH = cands[0]
+				vTrue := edgesWhere(ahm, cBool(vParam(ahm, 1)), true)
+				allInstrs(ahm, func(in ssa.Instruction) {
+					st, ok := in.(*ssa.Store)
+					if !ok || fieldOf(strip(st.Addr)) != fAH {
+						return
+					}
+					if cst, isC := strip(st.Val).(*ssa.Const); isC {
+						if g, _ := guardedBy(ahm, vTrue, isInstr(in)); g && len(vTrue) > 0 {
+							ahOn = cst
+						}
+					}
+					if ph, isPhi := strip(st.Val).(*ssa.Phi); isPhi {
+						for i, e := range ph.Edges {
+							if cst, isC := e.(*ssa.Const); isC && edgeGuarded(ahm, vTrue, ph.Block().Preds[i], ph.Block()) {
+								ahOn = cst
+							}
+						}
+					}
+				})
+				c.P.roleNotes = append(c.P.roleNotes, "the AutoHead switch is kept in field "+fAH.Name())
+			}
+		}
+	}
+	if fAH != nil {
 		get := p.Meth("flamego", "router", "Get")
 		for _, u := range p.FieldUses(fAH) {
 			key := p.FuncKey(u.Fn) + ":autoHead." + u.Kind
@@ -384,7 +503,14 @@ func checkC11(c *Check) {
 			}
 		}
 		if get != nil {
-			on := edgesWhere(get, cBool(vField(vParam(get, 0), "autoHead")), true)
+			ahField := func(v ssa.Value) bool { return fieldOf(addrOfLoad(strip(v))) == fAH }
+			on := edgesWhere(get, cBool(ahField), true)
+			if ahOn != nil {
+				on = edgesWhere(get, cCmp(token.EQL, ahField, func(v ssa.Value) bool {
+					cst, ok := strip(v).(*ssa.Const)
+					return ok && cst.Value != nil && ahOn.Value != nil && constant.Compare(cst.Value, token.EQL, ahOn.Value)
+				}), true)
+			}
 			found := false
 			for _, ci := range callsIn(get, func(n string, cm *ssa.CallCommon) bool {
 				return n == "(*flamego.router).Head" || (n == "(*flamego.router).Route" && vConstStr("HEAD")(cm.Args[1]))
@@ -565,4 +691,13 @@ func concatByCopy(fn *ssa.Function, v ssa.Value, A, B VM, before ssa.Instruction
 	ok1, _ := mustPrecede(fn, isInstr(c1), before)
 	ok2, _ := mustPrecede(fn, isInstr(c2), before)
 	return ok1 && ok2
+}
+
+// fieldRoot returns the root value of a field read (nil when v is none).
+func fieldRoot(v ssa.Value) ssa.Value {
+	r, _, ok := fieldPath(v)
+	if !ok {
+		return nil
+	}
+	return r
 }
